@@ -421,6 +421,63 @@ def bounded_case(args):
             shutil.rmtree(tmp, ignore_errors=True)
 
 
+def comments_case(args):
+    """sna2ctl -C (and -r) on a generated image through the real tool: it terminates without an exception, the block
+    directives tile the range, and every sub-block directive the comment generator adds lies inside its block, in
+    increasing order."""
+    seed, k = args
+    from skoolkit import sna2ctl
+    rnd = random.Random('%s/comments/%s' % (seed, k))
+    L = rnd.choice((3, 5, 20, rnd.randrange(1, 120)))
+    start = rnd.choice((32768, 65536 - L, rnd.randrange(16384, 65536 - L)))
+    end = start + L
+    snap = gen_image(rnd, start, end)
+    # lone prefixes and prefix chains before an opcode they do not affect
+    for _ in range(rnd.randrange(0, 3)):
+        a = rnd.randrange(start, end)
+        for i, b in enumerate(rnd.choice(([0xDD, 0x00], [0xFD, 0x3E, 0x01], [0xDD, 0xDD, 0x21], [0xFD, 0xC9], [0xDD, 0xED, 0xB0]))):
+            if a + i < end:
+                snap[a + i] = b
+    tmp = tempfile.mkdtemp(prefix='c14c_')
+    try:
+        binf = os.path.join(tmp, 'x.bin')
+        with open(binf, 'wb') as f:
+            f.write(bytes(snap[start:end]))
+        opts = ['-o', str(start), '-C'] + (['-r'] if rnd.random() < 0.3 else []) + (['-h'] if rnd.random() < 0.3 else [])
+        desc = 'sna2ctl %s on %d bytes at %d: %s' % (' '.join(opts[2:]), L, start, snap[start:end][:24])
+        out, err = io.StringIO(), io.StringIO()
+        try:
+            with contextlib.redirect_stdout(out), contextlib.redirect_stderr(err):
+                sna2ctl.main(opts + [binf])
+        except SystemExit as ex:
+            if ex.code not in (0, None):
+                return ('comments/exit', desc, 'exit %r: %s' % (ex.code, err.getvalue()[-150:]))
+        except Exception as ex:
+            return ('comments/exception', desc, repr(ex)[:160])
+        blocks = []
+        prev_sub = None
+        for line in out.getvalue().split('\n'):
+            parts = line.split()
+            if len(parts) < 2 or parts[0] == '@':
+                continue
+            try:
+                addr = int(parts[1].split(',')[0].replace('$', '0x'), 0) if parts[1].startswith('$') else int(parts[1].split(',')[0])
+            except ValueError:
+                continue
+            if parts[0] in 'bcgistuw' and len(parts[0]) == 1:
+                blocks.append(addr)
+                prev_sub = None
+            elif parts[0] in 'BCSTW' and len(parts[0]) == 1:
+                if not blocks or addr < blocks[-1] or addr >= end or (prev_sub is not None and addr <= prev_sub):
+                    return ('comments/sub-block', desc, 'directive `%s` outside its block / out of order (block at %s, previous sub-block %s)' % (line[:40], blocks[-1:] or None, prev_sub))
+                prev_sub = addr
+        if not blocks or blocks[0] != start or blocks != sorted(set(blocks)) or (end < 65536 and blocks[-1] != end):
+            return ('comments/tiling', desc, 'block directives at %s for [%d, %d)' % (blocks[:8], start, end))
+        return None
+    finally:
+        shutil.rmtree(tmp, ignore_errors=True)
+
+
 def run(tier):
     rep = common.Report('C14', tier, 'other', './check C14 --tier %s' % tier)
     rep.trust('pyvc (havoc/invariant loops, unknown-value abstraction), z3; CPython for the bounded generator runs')
@@ -448,6 +505,17 @@ def run(tier):
             rep.violation(k2, 'sna2ctl and sna2skool disagree on the length of bytes %s (%s): %s' % (hexseq, key, detail), {'case': {'size_enumeration': key}, 'detail': str(detail)})
     rep.exhaustive.append({'domain': 'instruction length per opcode path: opcodes.decode vs Disassembler, 5 addresses x 5 operand bytes x 2 additional-opcode settings', 'size': sum(r[1] for r in res7), 'visited': sum(r[1] for r in res7), 'complete': True})
     from props import c14text, c14dict, c14map
+    nc = 160 if tier == 'quick' else 3000
+    with Pool(common.NCPU) as pc:
+        resc = pc.map(comments_case, [(common.seed(), k) for k in range(nc)], chunksize=4)
+    rep.bounded.append({'function': 'skoolkit.sna2ctl.main -C [-r] [-h] (write_ctl / _generate_subctls / the comment generator)', 'contract': 'terminates without an exception; block directives tile the range; sub-block directives inside their block, increasing',
+                        'bound': '%d generated images (lone prefixes and prefix chains planted)' % nc, 'evaluations': nc})
+    seenc = set()
+    for b in [r for r in resc if r]:
+        if b[0] in seenc:
+            continue
+        seenc.add(b[0])
+        rep.violation('C14/%s' % b[0], '%s: %s' % (b[1], b[2]), {'case': {'comments_case': b[1], 'seed': common.seed()}, 'observed': b[2]})
     rm = c14map.replay_read_map({}, '')        # B: the three map formats through read_map (out-of-range entries, extra flag bits)
     rep.bounded.append({'function': 'skoolkit.snactl.read_map (rzxplay text, Z80 bit map, SpecEmu byte map)', 'contract': 'blocks increasing and disjoint, every map address inside [start, end) in a block, no block from an address outside the range or not executed',
                         'bound': '300 generated maps (100 per format)', 'evaluations': 300})
@@ -507,6 +575,14 @@ def replay(path):
         bad = [f for opc in ('', 'ALL') for f in c07.enumerate_set(opc)[2] if f[0] in ('size.decode', 'no_raise')]
         print(bad[:3])
         if bad:
+            print('VIOLATION property=C14 replay=%s' % path)
+            return 1
+        return 0
+    if 'comments_case' in case:
+        with Pool(common.NCPU) as pc:
+            resc = [r for r in pc.map(comments_case, [(case.get('seed', common.seed()), k) for k in range(3000)], chunksize=8) if r]
+        print(resc[:2])
+        if resc:
             print('VIOLATION property=C14 replay=%s' % path)
             return 1
         return 0
